@@ -1,6 +1,7 @@
 import SppModel.Lemmas.KernelLink
 import SppModel.Lemmas.Loop
 import SppModel.Generated.LoopKernels
+import SppModel.Frozen.LoopKernels
 /-!
 # Kernel specification — `kernels.subband` as translated computes its definition (C07, C09)
 
@@ -11,10 +12,10 @@ of an index expression, a loop bound or an operand in the source changes the gen
 the proof.
 -/
 namespace SppModel.KernelSpecs
-open SppModel SppModel.Loop SppModel.Generated.LoopKernels SppModel.KernelSpecs.LinkC
+open SppModel SppModel.Loop SppModel.Frozen.LoopKernels SppModel.KernelSpecs.LinkC
 
 /-- the kernel was recognised by the translator on this run -/
-theorem subband_translated : ∀ f ∈ translationFailures, f.1 ∉ ["kernels_py_loops", "loop_subband"] := by decide
+theorem subband_translated : ∀ f ∈ Generated.LoopKernels.translationFailures, f.1 ∉ ["kernels_py_loops", "loop_subband"] := by decide
 
 /-- `subband`: `out[S*t + s] += Σ_{c : sub c = s} in[C*(t + delay_c) + c]` for `t < n - maxdelay` -/
 theorem subband_spec (inp out : Nat → Rat) (dl sub : Nat → Nat) (md C S n k : Nat) (hsub : ∀ c < C, sub c < S) :
@@ -88,7 +89,7 @@ theorem subband_block_link (flat : List Int) (C : Nat) (delays : List Nat) (md n
 /-- the executable twin run by the correspondence check (`K` requests of the driver) is the same function:
     it only tabulates the loop state after each iteration (`Loop.forRangeM_eq`) -/
 theorem subband_exec_eq (memo : Nat) (inp out : Nat → Rat) (dl sub : Nat → Nat) (md C S n : Nat) :
-    subband_exec memo inp out dl sub md C S n = subband inp out dl sub md C S n := by
-  simp only [subband_exec, subband, Loop.forRangeM_eq]
+    Generated.LoopKernels.subband_exec memo inp out dl sub md C S n = Generated.LoopKernels.subband inp out dl sub md C S n := by
+  simp only [Generated.LoopKernels.subband_exec, Generated.LoopKernels.subband, Loop.forRangeM_eq]
 
 end SppModel.KernelSpecs
